@@ -682,6 +682,13 @@ func run() int {
 	// bound exceeded, unsupported construct) has lost all its obligations: on the unchanged tree there is none, so
 	// this is reported like an undischarged obligation, not silently skipped
 	for _, r := range results {
+		if r.OutOfSubset == "" && r.Paths == 0 && groups[r.Name+"#cover:return"] == nil && r.Contract != nil && !r.Contract.Lemma && !r.Contract.Table {
+			// no path of the function reaches a return any more (every path ends in a panic, an unsupported
+			// construct or an infeasible assumption): its postconditions have become vacuous
+			r.OutOfSubset = "symbolic execution produced no terminating path"
+		}
+	}
+	for _, r := range results {
 		if r.OutOfSubset == "" {
 			continue
 		}
